@@ -406,12 +406,28 @@ package vegeta
 // invariant lastTs <= clock is assumed at Lock and re-established at Unlock).
 //@ ghostfield lastTs int
 
+// Target.Request: the request is built from the target's method, URL and body; every header key is
+// copied with its letter case untouched into a fresh slice (no canonicalisation, no aliasing).
 //@ func (*Target).Request
-//@   trusted
-//@   requires t != nil
-//@   ensures (result1 == nil) == (result0 != nil)
-//@   ensures result0 != nil ==> fresh(result0) && result0.Method == t.Method && req_url(result0) == t.URL && result0.Header != nil
-//@              && fresh(result0.Header) && result0.ContentLength >= -1 && result0.TransferEncoding == nil
+//@   property C06
+//@   returns (req, err)
+//@   requires [non-nil] t != nil
+//@   modifies nothing
+//@   ensures [request-or-error] (err == nil) == (req != nil)
+//@   ensures [method-url] req != nil ==> fresh(req) && req.Method == t.Method && req_url(req) == t.URL && req.Header != nil && fresh(req.Header)
+//@              && req.ContentLength >= -1 && req.TransferEncoding == nil
+//@   ensures [empty-body-is-nil] req != nil && len(t.Body) == 0 ==> req.ContentLength == 0
+//@   ensures [headers-copied-case-preserved] req != nil ==> (forall k string :: has(t.Header, k) ==> has(req.Header, k) && len(req.Header[k]) == len(t.Header[k])
+//@              && (len(t.Header[k]) > 0 ==> fresh(req.Header[k])))
+//@   ensures [no-other-keys] req != nil ==> (forall k string :: has(req.Header, k) ==> has(t.Header, k))
+//@   ensures [host-header-sets-host] req != nil && len(req.Header[canon("Host")]) > 0 && req.Header[canon("Host")][0] != "" ==> req.Host == req.Header[canon("Host")][0]
+//@   at call copy: assert [header-values-copied-under-the-same-key] len(arg0) == len(vs) && (forall i int :: 0 <= i && i < len(vs) ==> req.Header[k][i] == vs[i] && t.Header[k][i] == vs[i]) ;
+//@        assert [copy-does-not-alias-the-target] len(vs) > 0 ==> fresh(req.Header[k]) && ptr(req.Header[k]) != ptr(vs)
+//@   loop 1
+//@     invariant req != nil && fresh(req) && req.Header != nil && fresh(req.Header) && req.Method == t.Method && req_url(req) == t.URL
+//@     invariant req.ContentLength >= -1 && req.TransferEncoding == nil && (len(t.Body) == 0 ==> req.ContentLength == 0)
+//@     invariant forall k string :: visited(k) ==> has(t.Header, k) && has(req.Header, k) && len(req.Header[k]) == len(t.Header[k]) && (len(t.Header[k]) > 0 ==> fresh(req.Header[k]))
+//@     invariant forall k string :: has(req.Header, k) ==> visited(k)
 
 //@ func (*Attacker).hit
 //@   property C02 C05 C06
@@ -436,7 +452,8 @@ package vegeta
 //@   ghost nameHeader bool
 //@   at call Lock: havoc atk.seq ; havoc lastTs(atk) ; assume [monitor-invariant] lastTs(atk) <= clock(0) ;
 //@        assume [fewer-than-2^64-hits] atk.seq < MaxUint64 ; ghost seqAtLock = atk.seq ; ghost lastTsAtLock = lastTs(atk)
-//@   at call time.Since x2: assume [attack-shorter-than-292-years] clock(0) - atk.began <= MaxInt64 && (res.Timestamp >= atk.began ==> clock(0) - res.Timestamp <= MaxInt64)
+//@   ghost tLast int
+//@   at call time.Since x2: ghost tLast = clock(0) ; assume [attack-shorter-than-292-years] clock(0) - atk.began <= MaxInt64 && (res.Timestamp >= atk.began ==> clock(0) - res.Timestamp <= MaxInt64)
 //@   before call Unlock: assert [C05-seq-and-timestamp-from-one-section] sections == 0 && res.Seq == seqAtLock && atk.seq == seqAtLock + 1 ;
 //@        assert [C05-timestamp-not-before-previous-hit] res.Timestamp >= lastTsAtLock ;
 //@        assert [C05-monitor-invariant-reestablished] res.Timestamp <= clock(0) ;
@@ -456,6 +473,7 @@ package vegeta
 //@   ensures [C05-one-section] sections == 1
 //@   ensures [C05-timestamp-after-start] result.Timestamp >= atk.began
 //@   ensures [C05-latency-non-negative] result.Latency >= 0 && result.Timestamp + result.Latency <= clock(0)
+//@   ensures [C05-end-is-timestamp-plus-latency] result.Timestamp + result.Latency == tLast
 //@   ensures [C05-latency-covers-transport] didDo ==> result.Latency >= t1 - t0
 //@   ensures [C06-method-and-url] !targeterFailed ==> result.Method == tgt.Method && result.URL == tgt.URL
 //@   ensures [C06-attack-name-and-seq] result.Attack == atk.name && result.Seq == seqAtLock
